@@ -33,8 +33,17 @@ def inputs(ctx):
     rng = ctx.rng
     quick = ctx.tier == "quick"
     ctx.exhaustive += ["all_1_byte_buffers", "all_2_byte_buffers" + ("(every 4th for known-bad families)" if quick else "")]
+    # The longer fields are drawn first and handed out in shuffled order BETWEEN the exhaustive streams and after them, so that
+    # fields of every width follow corrupt and valid fields of the other encoding (what one decode leaves behind in the
+    # process - the thread's decimal context, a cache - shows in the decodes that follow only when the next field is wider).
+    longer = list(_longer(rng, quick))
+    rng.shuffle(longer)
+    share = max(1, len(longer) // 6)
     for kind in (1, 2):
         for w in (1, 2):
+            for item in longer[:share]:
+                yield item
+            longer = longer[share:]
             for signed, d in pics_for_width(kind, w):
                 bad_family = (kind == 1 and d % 2 == 0) or (kind == 2 and signed)
                 step = 4 if (quick and bad_family and w == 2) else 1
@@ -50,6 +59,11 @@ def inputs(ctx):
                     n = v % (d + 1)
                     yield f"rand-{kind}-3", dict(kind=kind, signed=signed, m=d - n, n=n, buf=list(v.to_bytes(3, "big")),
                                                  usage=(PACKED[v % 3] if kind == 1 else DISPLAY), nav=False)
+    for item in longer:
+        yield item
+
+
+def _longer(rng, quick):
     # longer fields: nibble-boundary patterns, random bytes, valid encodings with one corrupted nibble
     nibs = [0x0, 0x9, 0xA, 0xF, 0xC, 0xD]
     for kind, maxd in ((1, 28), (2, 18)):
